@@ -3,7 +3,6 @@ from abc import ABC, abstractmethod
 from codecs import CodecInfo
 from dataclasses import dataclass, field
 from datetime import datetime, timedelta
-from math import floor
 from struct import pack, unpack_from
 from typing import Any, Dict, List, Optional, Tuple, Type, Union
 from .codec import find_codec_info
@@ -275,8 +274,9 @@ class SubmitSm(Trackable, SmppMessage):
                 prefix = '+'
             else:
                 # Unit is quarter-hour (15 minutes)
-                offset_str: str = f'{int(floor(offset.seconds / (60 * 15))):02d}'
-                prefix: str = '-' if offset.days < 0 else '+'
+                offset_seconds: int = offset.days * 86400 + offset.seconds
+                offset_str: str = f'{abs(offset_seconds) // (60 * 15):02d}'
+                prefix: str = '-' if offset_seconds < 0 else '+'
             return time_object.strftime('%y%m%d%H%M%S') + tenth_second + offset_str + prefix
         if isinstance(time_object, timedelta):
             # timedelta is converted to relative validity
@@ -320,10 +320,12 @@ class SubmitSm(Trackable, SmppMessage):
             return timedelta(days=total_days, seconds=total_seconds)
         # Absolute validity, convert to datetime
         tenth_second: int = int(smpp_time[12:13])
-        offset_str: str = smpp_time[15:16] + smpp_time[13:15] + '00'
+        # Offset is given in quarter-hours, year has two digits (SMPP 3.4 section 7.1.1)
+        offset_minutes: int = int(smpp_time[13:15]) * 15
+        offset_str: str = f'{smpp_time[15:16]}{offset_minutes // 60:02d}{offset_minutes % 60:02d}'
         offset: FixedOffset = FixedOffset.from_timezone(offset_str)
         return datetime(
-            year=year,
+            year=2000 + year,
             month=month,
             day=day,
             hour=hour,
